@@ -15,6 +15,7 @@ theorem ownCtx (L : LeafLaws F) (hG : G.GoodRT) (hsc : cfg.selfConsistent = true
   hG := hG
   hsc := by simp only [ownSpell, Spell.consistent]; exact hsc
   hiw := rfl
+  hnw := fun _ => rfl
   hkey := keyName_keyOut cfg
   hwkey := wrapperKey_keyOut G cfg
   hleaf := fun p o v hv hm => primIn_leafOut L G cfg p o v hv (fun h => (hm h).1) (fun h => (hm h).2 rfl)
@@ -37,11 +38,12 @@ def convLeaf (F : Facts08) (cfg : Cfg) (p : PrimTy) (v : Val) : Doc :=
 
 /-- `str` keys (every protocol accepts them), any of dict / positional form -/
 def convSpell (F : Facts08) (cfg : Cfg) (cas : ComplexAs) : Spell :=
-  { cas := cas, iw := cfg.ignoreWrappers, poly := false, kOut := Key.str, lOut := convLeaf F cfg }
+  { cas := cas, iw := cfg.ignoreWrappers, poly := false, nw := fun n => cfg.notWrapped.contains n, kOut := Key.str,
+    lOut := convLeaf F cfg }
 
 /-- MessagePack: `bytes` keys with `str` leaves, or `str` keys with the protocol's own `bin` leaves -/
 def mixSpell (F : Facts08) (cfg : Cfg) (cas : ComplexAs) (bytesKeys : Bool) : Spell :=
-  { cas := cas, iw := cfg.ignoreWrappers, poly := false,
+  { cas := cas, iw := cfg.ignoreWrappers, poly := false, nw := fun n => cfg.notWrapped.contains n,
     kOut := if bytesKeys then keyOut cfg else Key.str,
     lOut := if bytesKeys then convLeaf F cfg else leafOut F cfg }
 
@@ -131,6 +133,7 @@ theorem convCtx (L : LeafLaws F) (hG : G.GoodRT) (cas : ComplexAs)
   hG := hG
   hsc := by simp only [convSpell, Spell.consistent]; rcases hsc with h | h <;> simp [h]
   hiw := rfl
+  hnw := fun _ => rfl
   hkey := keyName_str cfg
   hwkey := wrapperKey_str G
   hleaf := fun p o v hv hm => convLeaf_ok L G cfg p o v hv hm
@@ -144,6 +147,7 @@ theorem mixCtx (L : LeafLaws F) (hG : G.GoodRT) (cas : ComplexAs) (bk : Bool)
   hG := hG
   hsc := by simp only [mixSpell, Spell.consistent]; rcases hsc with h | h <;> simp [h]
   hiw := rfl
+  hnw := fun _ => rfl
   hkey := by cases bk <;> simp [mixSpell, keyName_str, keyName_keyOut]
   hwkey := by cases bk <;> simp [mixSpell, wrapperKey_str, wrapperKey_keyOut]
   hleaf := by
@@ -218,7 +222,7 @@ theorem encOne_obj_not_null (S : Spell) (R : Registry) (n ns : Text) (b : Option
     (c : Text) (fvs : List (Text × Val)) :
     encOne R S (.obj n ns b fs o) (.obj c fvs) ≠ .null := by
   simp only [encOne, wrapPairs]
-  cases S.cas <;> cases S.iw <;> simp
+  cases S.cas <;> simp only [] <;> (try split) <;> simp
 
 /-- C02, request side: a request written by the documented conventions (spelling `S`) for conformant arguments
     hands exactly those arguments to the user function -/
@@ -226,7 +230,8 @@ theorem request_roundtrip {S : Spell} {rd : Bool} (R : Registry) (C : RtCtx F G 
     (name ns : Text) (base : Option Text) (fields : Fields) (o : Occ) (fvs : List (Text × Val))
     (hwf : wfTy (.obj name ns base fields o) = true) (hc : conformsFields fields fvs = true)
     (hmp : mpOk F cfg rd (.obj name ns base fields o) (.obj name fvs))
-    (hpl : plain S.cas (.obj name ns base fields o) (.obj name fvs) = true) :
+    (hpl : plain S.cas (.obj name ns base fields o) (.obj name fvs) = true)
+    (hnm : cfg.notWrapped.contains name = false) :
     decodeRequest F G cfg R (.obj name ns base fields o)
       (requestDoc cfg S R (.obj name ns base fields o) (.obj name fvs)) = .good (.obj name fvs) := by
   have hone : conformsOne (.obj name ns base fields o) (.obj name fvs) = true := by simp [conformsOne, hc]
@@ -243,7 +248,8 @@ theorem request_roundtrip {S : Spell} {rd : Bool} (R : Registry) (C : RtCtx F G 
         have := C.hsc; simpa [Spell.consistent, hiw] using this
       have hshape : encOne R S (.obj name ns base fields o) (.obj name fvs) =
           .map [(S.kOut name, .map ((encodeFields S R fields fvs).map (fun p => (S.kOut p.1, p.2))))] := by
-        simp [encOne, polyTarget_self R, wrapPairs, hcas, hiw]
+        have hnwS : S.nw name = false := by rw [C.hnw]; exact hnm
+        simp [encOne, polyTarget_self R, wrapPairs, hcas, hiw, hnwS]
       have hrt' := hrt
       rw [hshape] at hrt'
       simp [hshape, hmeth, hiw', hrt', toCall, Res.good, Res.bind]
